@@ -100,11 +100,16 @@ func (p *Prep) addPod(node string, letter byte, st PodState, age time.Duration) 
 			rsName = p.Name + "-gone" + strings.ToLower(string(letter))
 			pod.Name = fmt.Sprintf("%s-p%04d", rsName, podSeq)
 		}
-		pod.Labels = map[string]string{oracle.LabelEDSName: p.Name, oracle.LabelRSName: rsName}
+		pod.Labels = map[string]string{}
 		for k, v := range tpl.Labels {
 			pod.Labels[k] = v
 		}
-		pod.Annotations = map[string]string{oracle.AnnTemplateHash: hash}
+		pod.Labels[oracle.LabelEDSName], pod.Labels[oracle.LabelRSName] = p.Name, rsName
+		pod.Annotations = map[string]string{}
+		for k, v := range tpl.Annotations {
+			pod.Annotations[k] = v
+		}
+		pod.Annotations[oracle.AnnTemplateHash] = hash
 		pod.Spec = tpl.Spec
 		ctrl := true
 		pod.OwnerReferences = []metav1.OwnerReference{{APIVersion: "datadoghq.com/v1alpha1", Kind: "ExtendedDaemonSetReplicaSet", Name: rsName, UID: uid, Controller: &ctrl}}
